@@ -9,7 +9,7 @@ from __future__ import annotations
 import numpy as np
 
 VIAS = ["ctor", "ctor", "ctor", "swap_warm", "swap_fresh", "swap2", "from_labels", "queried_before", "queried_before",
-        "sample_replacement", "sample_smoothing", "sample_single_pass", "sample_swap", "replaced", "relabelled", "relabelled"]
+        "sample_replacement", "sample_smoothing", "sample_single_pass", "sample_swap", "replaced", "relabelled", "relabelled", "fraud_view"]
 FLIP = {"pos": "neg", "neg": "pos"}
 _THR = ["tpr", "fnr", "tnr", "fpr", "topr", "tonr"]
 
@@ -66,6 +66,14 @@ def build(pos, neg, ep, en, sc, ec, via, seed=0):
         method = "single_pass" if via == "sample_single_pass" else "replacement"
         b = src.bootstrap_sample(BootstrapConfig(sampling_method=method, smoothing=smoothing, stratified_sampling="by_label" if seed % 2 else None))
         return b.swap() if via == "sample_swap" else b
+    if via == "fraud_view":
+        # the FraudScores subclass is a Scores object, too: every property of Scores holds for it (scores in [0,1], equal_class genuine=pos)
+        allv_ = np.concatenate([np.asarray(pos, dtype=float), np.asarray(neg, dtype=float)])
+        if ec == "pos" and allv_.size and float(allv_.min()) >= 0.0 and float(allv_.max()) <= 1.0:
+            from score_analysis.applications import FraudScores
+
+            return FraudScores(genuines=pos, frauds=neg, nb_easy_genuines=ep, nb_easy_frauds=en, score_class="genuine" if sc == "pos" else "fraud")
+        via = "ctor"
     if via == "relabelled":
         # built under another configuration, queried, then its public label fields re-assigned with the plain strings the
         # constructor accepts: it must now behave exactly like a fresh object of the new configuration
